@@ -83,4 +83,41 @@ def wholeField {α} (n : Nat) (G : Nat → α) : List α := (List.range n).map G
 def restrictField {α} (isPoint : Bool) (d : List (List Nat)) (G : Nat → α) (loc : List Nat) : List α :=
   (pieceEntityIndices isPoint d loc).map G
 
+/-! ### axis-aligned decompositions of the three VTK directions (what the structured theorems quantify over)
+
+  `d3` lists, per VTK direction, the number of cells of each piece along that direction.  A flat
+  direction (one layer of points, no cells) is the single entry `0`; a meshed direction has at least
+  one piece and every piece has at least one cell.  The pieces are the locations
+  `locationsIn (piecesShape d3)`; piece `loc3` covers the lattice indices `pieceExtent d3 origin loc3`. -/
+
+def axisOk (ns : List Nat) : Bool := ns == [0] || (!ns.isEmpty && ns.all (0 < ·))
+
+def decompOk (d3 : List (List Nat)) : Bool := d3.length == 3 && d3.all axisOk
+
+def axisMeshed (ns : List Nat) : Bool :=
+  match ns.head? with
+  | some n => decide (0 < n)
+  | none => false
+
+/-- the meshed VTK directions of `d3` -/
+def meshedDirs (d3 : List (List Nat)) : List Nat :=
+  (List.range 3).filter fun dir => axisMeshed (d3.getD dir [])
+
+/-- the decomposition of the meshed directions only: what `StructuredFieldMerger` must be given -/
+def mergerOf (d3 : List (List Nat)) : List (List Nat) := (meshedDirs d3).map (d3.getD · [])
+
+/-- location of the piece `loc3` among the directions `dirs` -/
+def restrictLoc (dirs : List Nat) (loc3 : List Nat) : List Nat := dirs.map (loc3.getD · 0)
+
+/-- the `Extent` of the whole grid -/
+def wholeExtent (d3 : List (List Nat)) (origin : List Int) : List Int :=
+  (List.range 3).flatMap fun dir =>
+    let o := origin.getD dir 0
+    [o, o + (sumList (d3.getD dir []) : Nat)]
+
+/-- the ordinates the piece at position `b` of an axis cut into `ns` carries, `W` = the ordinates of
+    the whole axis: both end points of its range -/
+def pieceOrdinates (W : List Int) (ns : List Nat) (b : Nat) : List Int :=
+  (W.drop (sumList (ns.take b))).take (ns.getD b 0 + 1)
+
 end Fc.C06.Spec
